@@ -172,7 +172,7 @@ class DualCase(object):
         self.sdl = S.to_sdl(self.ir)[0]
 
 
-def run_request(config, case, text, op, variables, chooser=None, extra=None):
+def run_request(config, case, text, op, variables, chooser=None, extra=None, eager=False):
     """One execution under one configuration (and, for deferred ones, one schedule).
     Returns (outcome, trace)."""
     import py_gql
@@ -195,7 +195,7 @@ def run_request(config, case, text, op, variables, chooser=None, extra=None):
             return ("raised", e), []
     if config == "threadpool":
         kw["root"] = case.sync.root_value(root_type)
-        return sched.run_threadpool(chooser, case.schema_sync, text, kw)
+        return sched.run_threadpool(chooser, case.schema_sync, text, kw, eager=eager)
     in_thread = config != "asyncio-coroutines"
     binding = case.sync if config == "asyncio-executor" else case.asyn
     schema = case.schema_sync if config == "asyncio-executor" else case.schema_async
@@ -204,11 +204,13 @@ def run_request(config, case, text, op, variables, chooser=None, extra=None):
     def setg(g):
         binding.gates = g
 
-    return sched.run_asyncio(chooser, schema, text, kw, in_thread, setg)
+    return sched.run_asyncio(chooser, schema, text, kw, in_thread, setg, eager=eager)
 
 
-def schedules(config, rng, run_with, max_exh, n_samples):
-    """Yields (schedule, (outcome, trace), exhaustive?) for one configuration."""
+def schedules(config, rng, run_with, max_exh, n_samples, eager_run_with=None):
+    """Yields (schedule, (outcome, trace), exhaustive?) for one configuration. ``eager_run_with``
+    (same signature) runs a second, smaller exploration in which every pool submission may already
+    be finished when submit() returns."""
     from . import sched
 
     if config not in DEFERRED:
@@ -216,3 +218,6 @@ def schedules(config, rng, run_with, max_exh, n_samples):
         return
     for item in sched.explore(run_with, max_exh, n_samples, rng):
         yield item
+    if eager_run_with is not None and config != "asyncio-coroutines":
+        for item in sched.explore(eager_run_with, max(4, max_exh // 2), max(2, n_samples // 2), rng):
+            yield item
